@@ -326,8 +326,13 @@ impl C08 {
         // (b) semantic agreement on a set of register files
         let official = normalise_csr(insn);
         for inp in reg_files() {
-            let (e1, reads1, write1) = run_body(std::slice::from_ref(&official), &inp);
-            let (e2, _, _) = run_body(&body, &inp);
+            let (mut e1, reads1, write1) = run_body(std::slice::from_ref(&official), &inp);
+            let (mut e2, _, _) = run_body(&body, &inp);
+            // the scratch register of `store rs2, address, tmp` is left with an unspecified value
+            if let (true, Some(Opd::R(t))) = (form.ends_with("-tmp"), insn.ops.get(2)) {
+                e1.regs[*t as usize] = 0;
+                e2.regs[*t as usize] = 0;
+            }
             ctx.fact("executions_compared", 1);
             if e1.halted.as_deref().map(|h| h.contains("outside RV32IM")).unwrap_or(false) {
                 ctx.skip("not_rv32im");
@@ -582,7 +587,9 @@ pub fn decode_table() -> Vec<(Ins, String)> {
                 }
             }
             t.push((Ins::new(mn, vec![r(a), l("dat")]), "load-label".to_string()));
-            t.push((Ins::new(mn, vec![r(a), i(64)]), "load-absolute".to_string()));
+            for k in [64i64, -100, 2044, -2048, 2048, -2052, 0x1001_0400, 0x1001_0804, 0x1001_0ffc, 0x7fff_f7fc, -0x7fff_f800] {
+                t.push((Ins::new(mn, vec![r(a), i(k)]), "load-absolute".to_string()));
+            }
         }
     }
     for mn in ["sw", "sh", "sb"] {
@@ -597,6 +604,9 @@ pub fn decode_table() -> Vec<(Ins, String)> {
                 "store-label-tmp".to_string(),
             ));
             t.push((Ins::new(mn, vec![r(a), i(64)]), "store-absolute".to_string()));
+            for k in [64i64, -100, 2044, -2048, 2048, -2052, 0x1001_0400, 0x1001_0804, 0x1001_0ffc, 0x7fff_f7fc, -0x7fff_f800] {
+                t.push((Ins::new(mn, vec![r(a), i(k), r(6)]), "store-absolute-tmp".to_string()));
+            }
         }
     }
     for mn in ["beq", "bne", "blt", "bge", "bltu", "bgeu"] {
